@@ -218,6 +218,13 @@ func QuantileCI(n int, q, confidence float64) QuantileCIResult {
 		}
 		l = floorInt(math.Floor(l1-0.5)+0.5) + 1
 		r = floorInt(math.Ceil(r1-0.5)+0.5) + 1
+		if l == r {
+			// The central interval is a single point on a
+			// bucket boundary. Take the buckets on both sides
+			// of it (the biased interval below then drops the
+			// upper one) rather than returning an empty band.
+			l, r = l-1, r+1
+		}
 
 		if debug {
 			fmt.Printf("  [%v,%v] rounds to [%v,%v]\n", l1, r1, l, r)
